@@ -201,7 +201,7 @@ def truth_at(traj, t):
     return np.array([np.interp(t, ts, traj[c].values) for c in traj.columns])
 
 
-def make_measurements(samples, slots, traj, log, vertical_offsets=False):
+def make_measurements(samples, slots, traj, log, vertical_offsets=False, unsorted=False):
     """Spy measurement objects (subclasses of the public classes) for a sample set."""
     from pyins import measurements, transform
     by = {'P': [], 'V': [], 'B': []}
@@ -221,7 +221,7 @@ def make_measurements(samples, slots, traj, log, vertical_offsets=False):
 
     out = []
     if by['P']:
-        ts = sorted(by['P'])
+        ts = sorted(by['P'], reverse=unsorted)      # unsorted: rows of the table in reverse time order
         rows = []
         for j, t in enumerate(ts):
             p = truth_at(traj, t)
@@ -230,7 +230,7 @@ def make_measurements(samples, slots, traj, log, vertical_offsets=False):
         df = pd.DataFrame(rows, index=ts, columns=['lat', 'lon', 'alt'])
         out.append(spy(measurements.Position, 'P')(df, 2.0))
     if by['V']:
-        ts = sorted(by['V'])
+        ts = sorted(by['V'], reverse=unsorted)      # unsorted: rows of the table in reverse time order
         rows = []
         for j, t in enumerate(ts):
             p = truth_at(traj, t)
@@ -239,7 +239,7 @@ def make_measurements(samples, slots, traj, log, vertical_offsets=False):
         df = pd.DataFrame(rows, index=ts, columns=['VN', 'VE', 'VD'])
         out.append(spy(measurements.NedVelocity, 'V')(df, 0.2))
     if by['B']:
-        ts = sorted(by['B'])
+        ts = sorted(by['B'], reverse=unsorted)      # unsorted: rows of the table in reverse time order
         rows = []
         for j, t in enumerate(ts):
             p = truth_at(traj, t)
@@ -283,7 +283,7 @@ def run_filter(kind, case):
     step = step_value(case['step'], span)
     log = []
     meas, by = make_measurements([tuple(s) for s in case['samples']], slots, traj, log,
-                                 case.get('vert', False))
+                                 case.get('vert', False), case.get('unsorted', False))
     gm, am = make_models(case.get('models', 'bias'))
     form = case.get('form', 'list')
     kwargs = dict(time_step=step, with_altitude=wa)
